@@ -247,10 +247,15 @@ def _week(ctx, mir, sf) -> None:
     sym = mirsym.Sym(f2, sf)
     can2 = Canon({"ordinal": "ORD", "year": "Y"})
     seen = set()
+    wrap_conds = set()
     for p in sym.run(0, mirsym.NEVER):
         ret = p.state.get("_0")
         if not (isinstance(ret, ast.Call) and un(ret.func) == "Ok" and isinstance(ret.args[0], ast.Tuple)):
             continue
+        for c_, k_ in p.conds:
+            cb_ = mirsym.cond_bool(c_, k_)
+            if cb_ and "MONTHS_OFFSETS" not in un(cb_[0]) and "allow_out_of_bounds" not in un(cb_[0]) and "discriminant" not in un(cb_[0]):
+                wrap_conds.add(can2.cond(cb_[0], True)[0])
         y = can2.s(ret.args[0].elts[0])
         dd = can2.s(ret.args[0].elts[2])
         i_l = f2.local("i") if "i" in f2.debug else None
@@ -261,6 +266,10 @@ def _week(ctx, mir, sf) -> None:
         seen.add((y, base))
     want_s = {("Y", "ORD"), (E(can2, "Y - 1"), E(can2, "ORD + days_in_year(Y - 1)")),
               (E(can2, "Y + 1"), E(can2, "ORD - days_in_year(Y)"))}
+    want_c = {EC(can2, "ORD < 1")[0], EC(can2, "ORD > days_in_year(Y)")[0], EC(can2, "ORD + days_in_year(Y - 1) > days_in_year(Y - 1)")[0]}
+    ctx.ob("WEEKDATE.wrap", "rs:ordinal_to_ymd/wrap-conditions", wrap_conds <= want_c and {EC(can2, "ORD < 1")[0], EC(can2, "ORD > days_in_year(Y)")[0]} <= wrap_conds,
+           f"the year wrap is decided by {sorted(wrap_conds)}; must be exactly `ordinal < 1` (previous year) and `ordinal > days_in_year(year)` (next year)",
+           "rust/src/parsing.rs")
     ctx.ob("WEEKDATE.wrap", "rs:ordinal_to_ymd/year-wrap", seen == want_s,
            f"(year, ordinal) after the wrap: {sorted(seen)}; must be {sorted(want_s)}", "rust/src/parsing.rs")
 
@@ -391,6 +400,12 @@ def _wrap_sites(ctx) -> None:
     for s in sites:
         recon.check_site(ctx, s)
     ctx.count("recon_sites", len(sites))
+    for c_ in core.calls(pm.func("_parse")):
+        if nun(c_.func) == "pendulum.datetime":
+            tzv = nun(core.kw(c_).get("tz"))
+            ctx.ob("WRAP.tz", "parser._parse/tz", tzv == "parsed.tzinfo or options.get('tz', UTC)",
+                   f"tz={tzv}; the parsed offset (also a zero offset / Z) wins over the tz option, which only applies to strings without offset",
+                   pm.loc(c_))
     fn = gm.func("_normalize")
     ok = False
     for p in cfg.paths(fn):
